@@ -349,6 +349,7 @@ func sweepTokens(c *core.Ctx, judge judgeFn) {
 			add([]string{a, b})
 		}
 	}
+	nShort := len(srcs) // the strings of <=2 tokens are also handed over through Str#eval / Str#evalEnv (below)
 	three := tokenClasses
 	if c.Thorough() {
 		three = tokens
@@ -410,6 +411,37 @@ func sweepTokens(c *core.Ctx, judge judgeFn) {
 			}()
 		}
 		judge(fmt.Sprintf("%q", s), scase{Mode: "source", Src: s, Stdin: "line1\nline2\n"}, s+"\n", o, "tokens")
+	})
+	// the same texts reaching the parser from inside a running program: Str#eval and Str#evalEnv have their own
+	// wrapper around the parser's report (di.eval); the built-ins are called directly with the text as a str value
+	doors := []string{"eval", "evalEnv"}
+	var doorFns []object.PanObject
+	for _, d := range doors {
+		o := r.EvalSrc("Str['"+d+"]", "")
+		if o.Kind != "value" {
+			c.HarnessError("Str['%s] is not a value: %s", d, o.Short())
+			return
+		}
+		doorFns = append(doorFns, o.Val)
+	}
+	seenDoor := map[string]bool{}
+	tk.Sharded(c, nShort*len(doors), func(i int) {
+		s, d := srcs[i/len(doors)], i%len(doors)
+		if seenDoor[doors[d]+s] {
+			return
+		}
+		seenDoor[doors[d]+s] = true
+		c.Eval(1)
+		env := object.NewEnclosedEnv(r.Root)
+		o := r.Guard(env, "line1\nline2\n", func() object.PanObject { return r.Call(env, doorFns[d], object.NewPanStr(s)) })
+		if i%3000 == 0 {
+			c.Sample(map[string]string{"mode": "token string through Str#" + doors[d], "source": s})
+		}
+		src := fmt.Sprintf("%q.%s", s, doors[d])
+		if !strings.ContainsAny(s, "`\x00") {
+			src = "`" + s + "`." + doors[d]
+		}
+		judge("Str#"+doors[d]+" "+fmt.Sprintf("%q", s), scase{Mode: "source", Src: src, Stdin: "line1\nline2\n"}, src+"\n", o, "tokens-"+doors[d])
 	})
 }
 
